@@ -182,6 +182,13 @@ def rulesets(tier):
     for sb, sc in ((False, True), (False, False)):
         types_l, base_l = R.ref_loaded(capfirst, sb, sc)
         out.append(('capitalised masks first, all_lower=%s' % sc, types_l, base_l, (capfirst, sb, sc)))
+    # a ruleset trained on millions of passwords: neighbouring counts c and c-1 over N > 1e6 give probabilities closer than 1e-6, which are still
+    # different groups with different chances (counts 2 499 990 / 4 / 3 / 2 / 1 over 2.5 M)
+    near = dict(D.TERMINALS[0])
+    near.update(A={1: [('a', .5), ('b', 0.2500004), ('c', 0.2499996)]}, D={1: [('1', .6), ('2', .4)], 3: [('123', 0.999996), ('777', 1.6e-06), ('808', 1.2e-06), ('951', 8e-07), ('364', 4e-07)]},
+                grammar=[('D3', .5), ('A1D3', .3), ('D1', .2)], prince=D.PRINCE)
+    types_l, base_l = R.ref_loaded(near, False, False)
+    out.append(('probabilities closer than 1e-6 loaded from disk', types_l, base_l, (near, False, False)))
     out.append(('renormalised (skip_brute style)', {'D1': t['D1'], 'O1': t['O1']}, [(.3 / .7, ['D1']), (.25 / .7, ['O1']), (.15 / .7, ['D1', 'O1'])]))
     return out
 
